@@ -350,15 +350,16 @@ def scoped_lock_regions(fn, lock_cls_pred, mutex_member=None):
 # ---------------------------------------------------------------------------------------------
 # forward must-dataflow (sets; meet = intersection) over program points
 # ---------------------------------------------------------------------------------------------
-def dataflow_must(fn, transfer_elem, transfer_edge=None, init=frozenset(), may=False):
+def dataflow_must(fn, transfer_elem, transfer_edge=None, init=frozenset(), may=False, start_block=None):
     """Returns {pos: state-before-element}, {block: state-at-block-end}.  States are frozensets.
     With may=True the meet is union (may-analysis)."""
     TOP = None
     inb = {b: TOP for b in fn.blocks}
-    inb[fn.entry] = frozenset(init)
+    start_block = fn.entry if start_block is None else start_block
+    inb[start_block] = frozenset(init)
     before = {}
     outb = {}
-    work = [fn.entry]
+    work = [start_block]
     iters = 0
     while work:
         iters += 1
@@ -662,3 +663,41 @@ def value_root(fn, s):
             continue
         break
     return s
+
+
+# ---------------------------------------------------------------------------------------------
+# constant-flag pruning: `reserved = true; ... if (reserved)` -- the false edge is infeasible on that path
+# ---------------------------------------------------------------------------------------------
+def constant_flag_states(fn, start_block=None):
+    """must-dataflow over local variables whose every definition is a constant: state = frozenset of (var id, value).
+    Returns a stop_edge(state_at_block_end) helper: edges that contradict the known value of a branch-on-variable."""
+    defs = Defs(fn)
+    const_def = {}
+    for s, ds in defs.defs_at.items():
+        for vid, dn, val in ds:
+            v = fn.cv(val) if val is not None else None
+            const_def[(vid, dn)] = v
+
+    def tr(st, pos, e):
+        if isinstance(e, int) and e in defs.defs_at:
+            for vid, dn, val in defs.defs_at[e]:
+                st = frozenset(x for x in st if x[0] != vid)
+                v = const_def.get((vid, dn))
+                if v is not None and fn.nodes[e].get('k') in ('decl', 'binop'):
+                    st = st | {(vid, int(v))}
+            return st
+        return st
+    before, outb = dataflow_must(fn, tr, None, start_block=start_block)
+    infeasible = set()
+    for b, blk in fn.blocks.items():
+        t = blk.get('term')
+        if not t or 'c' not in t or len(blk['succ']) != 2 or b not in outb:
+            continue
+        known = dict(outb[b])
+        for si in (0, 1):
+            for (s, truth) in fn.edge_conds(b, si):
+                n = fn.n(fn.strip(s))
+                if n.get('k') == 'var' and n.get('v') in known:
+                    if bool(known[n['v']]) != truth:
+                        infeasible.add((b, si))
+    return infeasible
